@@ -44,6 +44,7 @@ type Cmd struct {
 	F    bool   `json:"f,omitempty"`    // probe: returns an error (after its end event)
 	S    bool   `json:"s,omitempty"`    // failing probe: calls Stop() on its scope before it returns the error (a command that gives up)
 	FK   string `json:"fk,omitempty"`   // failing probe that returns nil: "kill" = Kill() its scope, "stop-kill" = Stop() then Kill(), "append" = AppendError
+	W    bool   `json:"w,omitempty"`    // failing probe of a success/fail handler: before it fails it waits (at most 10 s, or until its scope is done) until the finally handler of the same try block has begun
 	Body []Cmd  `json:"body,omitempty"` // run / try: the body script
 	Succ []Cmd  `json:"succ,omitempty"` // try: success handler (defined iff non-empty)
 	Fail []Cmd  `json:"fail,omitempty"` // try: fail handler
@@ -55,7 +56,7 @@ type Cmd struct {
 // Case is one script and the environment it runs in.
 type Case struct {
 	Script []Cmd  `json:"script"`
-	Ctx    string `json:"ctx"`   // surrounding scope: "shared" (child sharing the app context) | "own" (child with a fresh context) | "isolated" (child with an isolated context of the app context)
+	Ctx    string `json:"ctx"`   // surrounding scope: "shared" (child sharing the app context) | "own" (child with a fresh context) | "isolated" (child with an isolated context of the app context) | "fresh" (a scope of the caller's own, no child of the application scope)
 	Procs  int    `json:"procs"` // GOMAXPROCS
 	Loud   bool   `json:"loud"`  // --silent=false: task output is really written
 }
@@ -81,6 +82,7 @@ type probeInfo struct {
 	stop  bool // failing probe stops its scope before returning the error
 	fk    string
 	setup bool // pseudo probe: a nested task whose sandbox fails at set-up
+	wfin  int  // >= 0: patient failing probe; index of the try whose finally handler it waits for before it fails
 	d     int
 	anc   []ancRef // enclosing (try, section) pairs, outermost first
 }
@@ -143,7 +145,13 @@ func (b *builder) script(sb *strings.Builder, cmds []Cmd, ctx int, anc []ancRef,
 		id := b.newID()
 		switch c.K {
 		case "p":
-			b.ix.probes[id] = &probeInfo{id: id, ctx: ctx, fail: c.F, stop: c.F && c.S, fk: c.FK, d: c.D, anc: append([]ancRef(nil), anc...)}
+			pi := &probeInfo{id: id, ctx: ctx, fail: c.F, stop: c.F && c.S, fk: c.FK, d: c.D, anc: append([]ancRef(nil), anc...), wfin: -1}
+			if c.F && c.W && len(anc) > 0 {
+				if a := anc[len(anc)-1]; a.sec == secSucc || a.sec == secFail {
+					pi.wfin = a.try // whether that try defines a finally handler is known once it is rendered completely
+				}
+			}
+			b.ix.probes[id] = pi
 			b.ix.probeIDs = append(b.ix.probeIDs, id)
 			fmt.Fprintf(sb, "%sp --id=%d\n", indent, id)
 		case "run":
@@ -163,7 +171,7 @@ func (b *builder) script(sb *strings.Builder, cmds []Cmd, ctx int, anc []ancRef,
 				b.ix.sbKind[id] = c.SB
 				// the task fails while its sandbox is set up: modelled as a failing command of the
 				// enclosing context whose begin/end events are written by the harness sandbox / engine
-				b.ix.probes[id] = &probeInfo{id: id, ctx: ctx, fail: true, setup: true, anc: append([]ancRef(nil), anc...)}
+				b.ix.probes[id] = &probeInfo{id: id, ctx: ctx, fail: true, setup: true, anc: append([]ancRef(nil), anc...), wfin: -1}
 				b.ix.probeIDs = append(b.ix.probeIDs, id)
 			}
 			fmt.Fprintf(sb, "%spip:run --name=r%d --silent=%s%s --body=", indent, id, silent, sandbox)
@@ -269,6 +277,25 @@ func (r *recorder) add(id int, begin bool) {
 	r.mu.Lock()
 	r.events = append(r.events, event{id, begin})
 	r.mu.Unlock()
+}
+
+// sectionBegan: some probe of section sec of try t has begun.
+func (r *recorder) sectionBegan(ix *index, t, sec int) bool {
+	r.mu.Lock()
+	defer r.mu.Unlock()
+	for _, e := range r.events {
+		if !e.begin {
+			continue
+		}
+		if p := ix.probes[e.id]; p != nil {
+			for _, a := range p.anc {
+				if a.try == t && a.sec == sec {
+					return true
+				}
+			}
+		}
+	}
+	return false
 }
 
 func (r *recorder) snapshot() []event {
@@ -424,7 +451,7 @@ type outcome struct {
 }
 
 func run(c Case) hx.Verdict {
-	if !wellFormed(c.Script, 0) || (c.Ctx != "shared" && c.Ctx != "own" && c.Ctx != "isolated") {
+	if !wellFormed(c.Script, 0) || (c.Ctx != "shared" && c.Ctx != "own" && c.Ctx != "isolated" && c.Ctx != "fresh") {
 		return inconclusive("malformed-case")
 	}
 	if atomic.LoadInt64(&HungCases) > 8 {
@@ -471,6 +498,13 @@ func run(c Case) hx.Verdict {
 				}
 			}
 			ctx.IO().Out().Printf("probe %d\n", id)
+			if p.fail && p.wfin >= 0 && ix.tries[p.wfin].def[secFin] {
+				// patient failure: let the finally handler of the same try block begin first (it may run
+				// beside this handler or after it; if it runs after it, the wait ends by time)
+				for t0 := time.Now(); time.Since(t0) < 10*time.Second && !ctx.Scope().IsDone() && !rec.sectionBegan(ix, p.wfin, secFin); {
+					time.Sleep(200 * time.Microsecond)
+				}
+			}
 			rec.add(id, false)
 			if p.fail {
 				switch p.fk {
@@ -501,7 +535,14 @@ func run(c Case) hx.Verdict {
 	case "isolated":
 		params.ContextScope = contextscope.NewIsolated(appScope.BaseContextScope())
 	}
-	surrounding := scope.NewChild(appScope, params)
+	var surrounding app.Scope
+	if c.Ctx == "fresh" {
+		// a caller-owned scope that is no child of the application scope: its data do not show the
+		// application's task manager, the first pipeline command creates one for this scope
+		surrounding = scope.New(scope.Params{Name: "c16"})
+	} else {
+		surrounding = scope.NewChild(appScope, params)
+	}
 	outBuf := &lockedBuf{}
 	out := gio.NewOutput(outBuf)
 	ioc := gio.NewIOContext(surrounding, gio.NewIO(gio.IOParams{
@@ -733,10 +774,17 @@ func judge(c Case, ix *index, log []event, complete bool, oc outcome) hx.Verdict
 			if sec == secSucc && bodyFailed || sec == secFail && !bodyFailed {
 				continue
 			}
-			exempt := false
+			exempt, patient := false, false
 			for _, id := range ix.probeIDs {
 				p := ix.probes[id]
 				if p.fail && began(id) && onChain(p.ctx, t.ctxOut) && !inSection(p, ti, sec) {
+					if sec == secFin && p.wfin == ti {
+						// a patient failure in the matching handler: it failed only after the finally handler
+						// had begun, or after it had waited 10 s for it with nothing failed around it - the
+						// finally handler then still has to run ("runs in both cases", "handlers that themselves fail")
+						patient = true
+						continue
+					}
 					exempt = true
 					break
 				}
@@ -744,6 +792,10 @@ func judge(c Case, ix *index, log []event, complete bool, oc outcome) hx.Verdict
 			if exempt {
 				v.Label("exempt:skipped-after-sibling-failure")
 				continue
+			}
+			if patient {
+				clause := secName[sec] + "-iff"
+				return hx.Fail(clause, "%s: the matching handler failed, but only after it had waited for the finally handler to begin (10 s at most, nothing else had failed in the surrounding context); the finally handler never ran", name)
 			}
 			how := "finished without error"
 			if bodyFailed {
@@ -801,7 +853,7 @@ func judge(c Case, ix *index, log []event, complete bool, oc outcome) hx.Verdict
 			if oc.appErr != oc.scopeErr {
 				return hx.Fail("scope-clean", "the application scope shares the context of the surrounding scope but disagrees about the error state")
 			}
-		case "own", "isolated":
+		case "own", "isolated", "fresh":
 			if oc.appErr {
 				return hx.Fail("scope-clean", "the application scope reports an error although the script ran in a scope with its own (or an isolated) context")
 			}
@@ -811,6 +863,12 @@ func judge(c Case, ix *index, log []event, complete bool, oc outcome) hx.Verdict
 	v.Label("ctx:" + c.Ctx)
 	if anyHandlerFailed {
 		v.Label("handler-failed")
+	}
+	for _, id := range ix.probeIDs {
+		if p := ix.probes[id]; p.wfin >= 0 && ix.tries[p.wfin].def[secFin] && ended(id) {
+			v.Label("matching-handler-failed-after-finally-had-begun")
+			break
+		}
 	}
 	for _, id := range ix.probeIDs {
 		if p := ix.probes[id]; p.stop && began(id) {
